@@ -12,7 +12,9 @@ import Lox.LR.ConflictCheck
 * `prodinfo`: `rule prec right` per production, separated by `;` (as in `dec.resolve`);
 * `transitions`: triples `s X t` separated by `;`: state `s` has a transition on symbol `X`
   (encoded like a grammar symbol) to state `t` (`ParserTable.Transitions(s).Inputs()/Get`);
-* `flag`: `ParserTable.HasConflicts` of the real run, `0` or `1`.
+* `flag`: `ParserTable.HasConflicts` of the real run, `0` or `1`;
+* an optional seventh section (the name order of the symbols, used by the harness to replay a line)
+  is ignored.
 
 Answer: `ok conflicts` / `ok clean` when all checks pass (`conflictCheckB`, sound by
 `Lox.Props.C04.conflict_check_sound`) and the verdict computed from the definition
@@ -34,8 +36,9 @@ def mkTransTab (n : Nat) (ts : List (Nat × Sym × Nat)) : TransTab :=
 
 def parseConflict (payload : String) :
     Option (Grammar × Nat × Nat × (Nat → Lox.Dec.ProdInfo) × TransTab × Array (List Item) × Bool) := do
-  match payload.splitOn "|" with
-  | [hd, prods, infos, trs, cert, flag] =>
+  match (payload.splitOn "|").take 6, (payload.splitOn "|").length with
+  | [hd, prods, infos, trs, cert, flag], n =>
+    if n > 7 then none else
     let (nTerms, nRules) ← match ← parseNats hd with
       | [a, b] => some (a, b)
       | _ => none
@@ -49,7 +52,7 @@ def parseConflict (payload : String) :
       | _ => none
     some (⟨prods.toArray⟩, nTerms, nRules, fun i => infos.getD i ⟨0, 0, false⟩,
       mkTransTab cert.length ts, cert.toArray, flag)
-  | _ => none
+  | _, _ => none
 
 def handleConflict (op payload : String) : Option String :=
   match op with
